@@ -263,6 +263,38 @@ theorem store_refines_map (reqs : List (StoreReq K)) (hok : ∀ q ∈ reqs, ReqO
     (runStore ([] : Store K) reqs).map absResp = runSpec (fun _ => none) (reqs.map absReq) :=
   store_refines_from [] (fun p hp => by cases hp) reqs hok
 
+/-! ## reachable stores satisfy the invariant -/
+
+/-- the store after a request sequence -/
+def runState (s : Store K) : List (StoreReq K) → Store K
+  | [] => s
+  | q :: qs => runState (handleStore s q).1 qs
+
+/-- the specification's state after a request sequence -/
+def runSpecState (kv : KV K) : List (SpecReq K) → KV K
+  | [] => kv
+  | q :: qs => runSpecState (specStep kv q).1 qs
+
+/-- Every store reachable from the empty one satisfies the invariant (in particular every stored
+    matrix satisfies `MatInv`), and denotes the specification's state. -/
+theorem reachable_inv (reqs : List (StoreReq K)) (hok : ∀ q ∈ reqs, ReqOK q) :
+    StoreInv (runState ([] : Store K) reqs) ∧
+    absStore (runState ([] : Store K) reqs) = runSpecState (fun _ => none) (reqs.map absReq) := by
+  have key : ∀ (s : Store K), StoreInv s → ∀ reqs : List (StoreReq K), (∀ q ∈ reqs, ReqOK q) →
+      StoreInv (runState s reqs) ∧
+      absStore (runState s reqs) = runSpecState (absStore s) (reqs.map absReq) := by
+    intro s hs reqs
+    induction reqs generalizing s with
+    | nil => intro _; exact ⟨hs, rfl⟩
+    | cons q qs ih =>
+      intro hok
+      obtain ⟨h1, h2, _⟩ := store_step_refines s hs q (hok q (by simp))
+      have := ih _ h1 (fun q' hq' => hok q' (by simp [hq']))
+      simp only [runState, List.map_cons, runSpecState]
+      rw [← h2]
+      exact this
+  exact key [] (fun p hp => by cases hp) reqs hok
+
 /-! ## 8. invalid bodies -/
 
 /-- A body the loader refuses is answered 400 and leaves the store unchanged. -/
@@ -369,5 +401,65 @@ theorem get_put_roundtrip (s : Store K) (hs : StoreInv s) (id id2 : String) (M :
   obtain ⟨h1, _⟩ := put_replace s id2 false _ _ hl (Or.inl rfl)
   refine ⟨(valid_renderI hM.wfm hM.square hM.pos).2.2, _, h1, rfl, rfl, hM.square, ?_⟩
   simp only [absStore, h1, hg, Option.map_some]
+
+/-! ## non-vacuity at `K := ℚ` -/
+
+section examples
+
+-- `ℚ` carries two `Scalar` instances (`ratScalar` for the driver, `fieldScalar` for proofs);
+-- the examples use the proof instance.
+attribute [local instance 10000] fieldScalar
+
+/-- create, merge-with-enlargement, read, probe, refused body, delete, read again -/
+private def exReqs : List (StoreReq ℚ) :=
+  [ .put "a" false (.inline ⟨2, [(0, 1, 1), (1, 0, 2)]⟩),
+    .put "a" true (.inline ⟨3, [(2, 0, 5), (0, 1, 7)]⟩),
+    .get "a", .head "b", .put "b" false (.inline ⟨0, []⟩), .put "b" true (.stored "a"),
+    .put "c" false (.stored "nope"), .delete "a", .get "a" ]
+
+private theorem exReqs_ok : ∀ q ∈ exReqs, ReqOK q := by
+  intro q hq
+  simp only [exReqs, List.mem_cons, List.not_mem_nil, or_false] at hq
+  rcases hq with rfl | rfl | rfl | rfl | rfl | rfl | rfl | rfl | rfl <;>
+    first | trivial | (simp only [ReqOK]; decide)
+
+example := store_refines_map exReqs exReqs_ok
+example := reachable_inv exReqs exReqs_ok
+
+private def code : StoreResp ℚ → Nat × List (Nat × Nat × ℚ)
+  | .created => (201, [])
+  | .updated => (200, [])
+  | .noContent => (204, [])
+  | .notFound => (404, [])
+  | .badRequest => (400, [])
+  | .matrix n es => (1000 + n, es)
+
+example : (runStore [] exReqs).map code =
+    [(201, []), (200, []), (1003, [(0, 1, 7), (1, 0, 2), (2, 0, 5)]), (404, []), (400, []),
+     (201, []), (400, []), (204, []), (404, [])] := by
+  decide +kernel
+
+/-- the store after the first two requests: id "a" holds the merged 3×3 matrix -/
+private def exS : Store ℚ := runState [] (exReqs.take 2)
+private theorem exS_inv : StoreInv exS :=
+  (reachable_inv _ (fun q hq => exReqs_ok q (List.mem_of_mem_take hq))).1
+private def exA : CSM ℚ := ⟨3, 3, [[⟨1, 7⟩], [⟨0, 2⟩], [⟨0, 5⟩]], []⟩
+deriving instance DecidableEq for Entry
+deriving instance DecidableEq for CSM
+private theorem exS_a : exS.get? "a" = some exA := by decide +kernel
+
+example := (get_exact exS exS_inv "a").2 exA exS_a
+example := (get_exact exS exS_inv "zzz").1 (by decide +kernel)
+example := get_put_roundtrip exS exS_inv "a" "copy" exA exS_a
+example : handleStore exS (.put "a" true (.inline ⟨2, [(5, 0, 1)]⟩)) = (exS, .badRequest) :=
+  invalid_body_unchanged exS "a" true _ (by decide +kernel)
+example := put_status exS "a" true (.stored "a") exA exS_a
+example := put_replace exS "a" false (.stored "a") exA exS_a (Or.inl rfl)
+example := merge_overlay exS "a" (.stored "a") exA exA exS_a exS_a
+  (exS_inv.get exS_a).wfm (exS_inv.get exS_a).clean (exS_inv.get exS_a).wfm
+example := store_step_refines exS exS_inv (.put "a" true (.inline ⟨4, [(3, 3, 1)]⟩))
+  (by simp only [ReqOK]; decide)
+
+end examples
 
 end EtVerif.C13
